@@ -71,10 +71,11 @@ def instrument(prop, beh, idx, rng):
     deep = prop in ("C16", "C05", "C11", "C12") and rng.random() < 0.6
     epn = rng.choice([2, 3, 4]) if deep else rng.choice([2, 4096, 0])
     cache = rng.choice([0, 0, 8])
-    if prop == "C05" and cache > 0 and 0 < epn <= 4 and rng.random() < 0.8:
+    if prop in ("C05", "C11", "C16") and cache > 0 and 0 < epn <= 4 and rng.random() < 0.8:
         cache = 0   # KF-C05-1 (dependency) lives in cache>0 x small epn: keep that corner small but present
     out = []
     inst = Inst(prop, rng)
+    post = []
     fresh_n = [0]
 
     def fresh():
@@ -104,7 +105,17 @@ def instrument(prop, beh, idx, rng):
         out += [{"op": "stmt", "c": w, "id": "n1", "kind": "upd", "key": ABSENT_KEY, "cols": {"a": "t:zz"}, "wt": 50},
                 {"op": "stmt", "c": w, "id": "n2", "kind": "del", "key": ABSENT_KEY, "wt": 51},
                 {"op": "begin", "c": w}, {"op": "commit", "c": w},
-                {"op": "reach"}, {"op": "open", "c": fresh(), "mode": "ro"}, {"op": "bucket"}]
+                {"op": "reach"}, {"op": "open", "c": fresh(), "mode": "ro"}]
+        # a commit that fails part-way, then a successful one: what is acknowledged must be complete
+        for k in range(0, 4):
+            out += [{"op": "plan", "c": w, "fail_at": k, "kind": "err", "persistent": 1},
+                    {"op": "stmt", "c": w, "id": "g%d" % k, "kind": "ins", "key": "i:%d" % (1001 + 11 * k), "cols": {"a": "t:g"}, "wt": 60 + k},
+                    {"op": "heal", "c": w},
+                    {"op": "stmt", "c": w, "id": "h%d" % k, "kind": "ins", "key": "i:%d" % (2002 + 13 * k), "cols": {"a": "t:h"}, "wt": 65 + k},
+                    {"op": "dump", "c": w}]
+            lab = inst.save_version(out, w)
+            out += [{"op": "kvdump", "c": fresh(), "only_ref": lab, "tag": w}, {"op": "reach"}]
+        out += [{"op": "open", "c": fresh(), "mode": "ro"}, {"op": "bucket"}]
     elif prop == "C11":
         for i, s in enumerate(steps):
             out.append(s)
@@ -123,6 +134,19 @@ def instrument(prop, beh, idx, rng):
         for lab in inst.saved:
             out.append({"op": "kvdump", "c": fresh(), "only_ref": lab})
             out.append({"op": "changes", "c": "m1", "from": [], "to_ref": lab})
+        # a storage fault while a commit retires its parent must not lose the parent's name
+        for k in range(0, 5):
+            inst.save_version(out, "m1")
+            out += [{"op": "plan", "c": "m1", "fail_at": k, "kind": "err", "persistent": rng.choice([0, 1])},
+                    {"op": "stmt", "c": "m1", "id": "q%d" % k, "kind": "ins", "key": "i:%d" % (6100 + k), "cols": {"a": "t:q"}, "wt": 70 + k},
+                    {"op": "heal", "c": "m1"}, {"op": "refresh", "c": "m1", "when": 300 + k}]
+            for lab in inst.saved[-3:]:
+                out.append({"op": "kvdump", "c": fresh(), "only_ref": lab})
+        # (after the epilogue, because a vacuum obliges every other open handle to refresh before it reads again:)
+        # a vacuum only makes versions unreadable that its cutoff covers: whatever is still in the bucket reads as before
+        post += [{"op": "refresh", "c": "m1", "when": 400}, {"op": "vacuum", "c": "m1", "cutoff": rng.choice([103, 110, 120, 305])}]
+        for lab in inst.saved:
+            post.append({"op": "kvdump", "c": fresh(), "only_ref": lab})
     elif prop == "C12":
         for s in steps:
             out.append(s)
@@ -142,10 +166,16 @@ def instrument(prop, beh, idx, rng):
         # one storage fault at each early request index of a diff
         for a, b in pairs[:2]:
             for k in range(0, 10):
-                out.append({"op": "plan", "c": "x", "fail_at": k, "kind": rng.choice(["err", "deadline"]), "persistent": rng.choice([0, 1])})
+                out.append({"op": "plan", "c": "x", "fail_at": k, "kind": rng.choice(["err", "deadline", "404", "404"]), "persistent": rng.choice([0, 1])})
                 out.append({"op": "changes", "c": "x", "from_ref": a, "to_ref": b})
                 out.append({"op": "heal", "c": "x"})
         feats.add("faults")
+        # a vacuum reclaims old versions: a diff that names one of them must fail, not answer as if it were empty
+        post += [{"op": "refresh", "c": "m1", "when": 500}, {"op": "vacuum", "c": "m1", "cutoff": 400}, {"op": "refresh", "c": "x"}]
+        for a, b in pairs[:6]:
+            post.append({"op": "changes", "c": "x", "from_ref": a, "to_ref": b})
+        for lab in labs[:4]:
+            post.append({"op": "changes", "c": "x", "from_ref": lab})
     elif prop == "C13":
         at = rng.randrange(len(steps) + 1)
         ro_ops = []
@@ -216,6 +246,14 @@ def instrument(prop, beh, idx, rng):
                 {"op": "dump", "c": w, "tag": "stamp"},
                 {"op": "conn_set", "c": w, "attr": "deadline"}, {"op": "conn_get", "c": w},
                 {"op": "rows", "c": w},
+                # write_time set explicitly inside a transaction stays set after COMMIT
+                {"op": "conn_set", "c": w, "attr": "write_time"}, {"op": "begin", "c": w},
+                {"op": "stmt", "c": w, "id": "b1", "kind": "ins", "key": "i:5160", "cols": {"a": "t:b1"}, "wt": -999, "keep_wt": 1, "intx": 1},
+                {"op": "conn_set", "c": w, "attr": "write_time", "t": 45}, {"op": "conn_get", "c": w},
+                {"op": "stmt", "c": w, "id": "b2", "kind": "ins", "key": "i:5161", "cols": {"a": "t:b2"}, "wt": 45, "keep_wt": 1, "intx": 1},
+                {"op": "commit", "c": w}, {"op": "conn_get", "c": w},
+                {"op": "stmt", "c": w, "id": "b3", "kind": "ins", "key": "i:5162", "cols": {"a": "t:b3"}, "wt": 45, "keep_wt": 1},
+                {"op": "dump", "c": w, "tag": "stamp"}, {"op": "rows", "c": w},
                 # an expired deadline applies to the statements issued while it is set, and only to those
                 {"op": "conn_set", "c": w, "attr": "deadline", "raw": "2001-01-01 00:00:00"}, {"op": "conn_get", "c": w},
                 {"op": "refresh", "c": w},
@@ -265,6 +303,8 @@ def instrument(prop, beh, idx, rng):
                 {"op": "stmt", "c": w, "id": "t5", "kind": "ins", "key": "i:7002", "cols": {"b": "t:t5"}, "wt": -999, "keep_wt": 1, "intx": 1},
                 {"op": "rows", "c": w}, {"op": "commit", "c": w}, {"op": "dump", "c": w, "tag": "txdump"}, {"op": "rows", "c": w},
                 {"op": "open", "c": fresh(), "mode": "ro"}]
+        # one default-time transaction writing to two s3db tables of the same connection
+        out += [{"op": "tx2tables", "c": w, "base": 8800}, {"op": "rows", "c": w}]
         # a transaction whose COMMIT hits a storage fault: forced rollback
         out += [{"op": "rows", "c": w}, {"op": "begin", "c": w},
                 {"op": "stmt", "c": w, "id": "u1", "kind": "ins", "key": "i:7003", "cols": {"a": "t:u1"}, "wt": 80, "intx": 1},
@@ -283,6 +323,9 @@ def instrument(prop, beh, idx, rng):
     out += [{"op": "open", "c": "z1", "mode": "ro", "perm": rng.randrange(6)},
             {"op": "open", "c": "z2", "mode": "rw", "perm": rng.randrange(6)},
             {"op": "open", "c": "z3", "mode": "ro", "perm": rng.randrange(6)}]
+    out += post
+    if any(st["op"] in ("plan", "rollback") for st in out):
+        feats.add("rollback_or_failed_commit")
     log_nodes = 0
     if cache > 0:
         feats.add("node_cache")
